@@ -214,7 +214,7 @@ package statebackend
 //@   ensures one_transaction: calls_DBWrite == old(calls_DBWrite) + 1 && result == writeErr
 //@   ensures filter_only_inside: calls_FilterInsert == old(calls_FilterInsert) && calls_InsertWithBatch == old(calls_InsertWithBatch)
 //@ func (*stateBackend).Store$1
-//@   props C05
+//@   props C05, C02
 //@   arith int
 //@   nosafe
 //@   requires *b != nil && (*b).database != nil && (*b).runningFilter != nil && *block != nil && (*block).Header != nil && (*block).ParentHash != nil && *stateUpdate != nil
@@ -236,7 +236,7 @@ package statebackend
 //@   ensures one_transaction: calls_DBUpdate == old(calls_DBUpdate) + 1 && result == writeErr
 //@   ensures filter_only_inside: calls_FilterInsert == old(calls_FilterInsert) && calls_InsertWithBatch == old(calls_InsertWithBatch)
 //@ func (*deprecatedStateBackend).Store$1
-//@   props C05
+//@   props C05, C02
 //@   arith int
 //@   nosafe
 //@   requires *b != nil && (*b).database != nil && (*b).runningFilter != nil && *block != nil && (*block).Header != nil && (*block).ParentHash != nil && *stateUpdate != nil
